@@ -208,3 +208,66 @@ def _mut_never_record(fn):
                         body.append(ast.Pass())
                     cnt += 1
     return cnt
+
+
+# ------------------------------------------------------------------------------------------------ the public membership requests
+@unit(name='membership.request', relpath=MOD, qual=['SyncObj.addNodeToCluster', 'SyncObj.removeNodeFromCluster', 'SyncObj._addNodeToCluster',
+                                                     'SyncObj._removeNodeFromCluster'], props=['C10'],
+      cases=[dict(op=o, via=v) for o in ('add', 'rem') for v in ('api', 'utility')],
+      doc='O10.1 (entry points): with dynamic membership disabled the request raises and submits nothing; otherwise exactly one MEMBERSHIP command '
+          '[kind, node.id, node] for the named node is submitted with the caller\'s callback - "add" from addNodeToCluster, "rem" from '
+          'removeNodeFromCluster; the admin-utility wrapper refuses to remove the node\'s own address (REQUEST_DENIED) and otherwise forwards',
+      assumptions=['utility wrappers run only on a node with an own address (utility messages arrive through its bound server)'])
+def membership_request(ctx, op, via):
+    so = SO(ctx, UNIVERSE())
+    so.assume_inv()
+    idx = FreshInt('node')
+    ctx.assume(And(idx >= 0, idx <= so.U))
+    node = NodeV(idx)
+    reg = dict(SUMMARIES)
+    from .so_submit import applyCommand_summary
+    reg['SyncObj._applyCommand'] = applyCommand_summary
+    I = make_interp(ctx, so, registry=reg, inline={'SyncObj.addNodeToCluster', 'SyncObj.removeNodeFromCluster'})
+    cb = Callable_('user:cb')
+    old = so.snapshot()
+    if via == 'api':
+        k, v = run_method(I, so, 'SyncObj.%s' % ('addNodeToCluster' if op == 'add' else 'removeNodeFromCluster'), [node, cb])
+    else:
+        # the admin utility names the node by its address string (for a TCPNode: its id); utility messages only reach a node that has bound
+        # its own address, i.e. one with a selfNode
+        sn = so.get('selfNode')
+        ctx.assume(Not(sn.isnone) if isinstance(sn, Opt) else (sn is not None))
+        k, v = run_method(I, so, 'SyncObj.%s' % ('_addNodeToCluster' if op == 'add' else '_removeNodeFromCluster'), [(NodeId(idx),), cb])
+    sub = ctx.glist('submitted')
+    cbs = ctx.glist('cb')
+    dyn = so.conf('dynamicMembershipChange')
+    denied = [a for f, a in cbs if f.tag == 'user:cb']
+    if k == 'raise':
+        ctx.prove(Not(I.truth_expr(dyn)), 'C10:O10.1.request-raises-only-when-membership-changes-are-disabled', info=v.typ)
+        ctx.prove(len(sub) == 0, 'C10:O10.1.rejected-request-submits-nothing')
+        return
+    if denied:
+        # only the utility wrapper of "remove" may answer by itself, and only for the node's own address
+        ctx.prove(via == 'utility' and op == 'rem', 'C10:O10.1.only-remove-of-self-is-refused-locally')
+        ctx.prove(And(idx == so.U, len(denied) == 1 and denied[0][0] is None and Eq(denied[0][1], 6)), 'C10:O10.1.remove-of-own-address-is-REQUEST_DENIED',
+                  info=repr(denied))
+        ctx.prove(len(sub) == 0, 'C10:O10.1.refused-request-submits-nothing')
+        return
+    ctx.prove(I.truth_expr(dyn), 'C10:O10.1.membership-change-needs-dynamic-membership')
+    ctx.prove(len(sub) == 1, 'C10:O10.1.exactly-one-command-submitted')
+    if len(sub) == 1:
+        a = sub[0]
+        from .so_model import Pickled
+        val = ctx.cell(a[0].value) if isinstance(a[0], Pickled) and isinstance(a[0].value, Ref) else None
+        ok = isinstance(val, PList) and len(val.items) == 3 and val.items[0] == op
+        ctx.prove(ok, 'C10:O10.1.command-kind-matches-the-request', info=repr(val.items if val is not None else a[0]))
+        if ok:
+            nid, nd = val.items[1], val.items[2]
+            ctx.prove(isinstance(nd, NodeV) and Eq(nd.idx, idx), 'C10:O10.1.command-names-the-requested-node')
+            ctx.prove(isinstance(nid, NodeId) and Eq(nid.idx, idx), 'C10:O10.1.command-carries-the-node-id')
+        ctx.prove(a[2] == 2, 'C10:O10.1.command-type-is-MEMBERSHIP', info=repr(a[2]))
+        ctx.prove(a[1] is cb, 'C10+C02:O10.1.callback-forwarded')
+    if via == 'utility' and op == 'rem':
+        ctx.prove(idx != so.U, 'C10:O10.1.remove-of-own-address-never-submitted')
+    for n, b in field_unchanged(old, so, ['otherNodes', 'raftLog', 'raftCommitIndex', 'raftCurrentTerm', 'changeClusterIDx']):
+        ctx.prove(b, 'C10:O10.1.request-changes-nothing-before-it-is-appended.%s' % n)
